@@ -1021,6 +1021,15 @@ func RunCell(c *Cell) (res *Result) {
 				cfg.Cmd = exec.Command("/bin/sh", "-c", "/usr/bin/env -0 > "+dump+"; cat > "+dump+".stdin; echo not-a-plugin; exit 0")
 				cfg.Cmd.Stdin = strings.NewReader("PRESET-BY-THE-APPLICATION")
 			}
+			if arg == "cmdzero" {
+				// command launch from a host whose stdin is a character device (/dev/zero here; a terminal, a serial line):
+				// the child reads from that very device
+				if f, err := os.Open("/dev/zero"); err == nil {
+					os.Stdin = f
+				}
+				cfg.RunnerFunc = nil
+				cfg.Cmd = exec.Command("/bin/sh", "-c", "/usr/bin/env -0 > "+dump+"; head -c 10 > "+dump+".stdin; echo not-a-plugin; exit 0")
+			}
 			if arg == "reuseok" {
 				// the same *ClientConfig first starts a real plugin successfully (a version is negotiated) ...
 				capture := cfg.RunnerFunc
@@ -1038,12 +1047,12 @@ func RunCell(c *Cell) (res *Result) {
 			}
 			cl := plugin.NewClient(cfg)
 			cl.Start()
-			if arg == "cmdstdin" {
+			if arg == "cmdstdin" || arg == "cmdzero" {
 				b, _ := os.ReadFile(dump + ".stdin")
 				res.StdinSeen = string(b)
 			}
 			switch arg {
-			case "cmd", "cmdstdin":
+			case "cmd", "cmdstdin", "cmdzero":
 				if b, err := os.ReadFile(dump); err == nil {
 					for _, kv := range strings.Split(string(b), "\x00") {
 						if kv != "" {
